@@ -9,7 +9,7 @@ from hypothesis import strategies as st
 
 from vlib import env, gen, indep  # noqa: F401
 from vlib.build import build_molecule, lib, spec_records
-from vlib.report import PropertyViolation
+from vlib.report import Discard, HarnessError, PropertyViolation
 from vlib.runner import Sub
 
 from gaddlemaps import Alignment
@@ -313,24 +313,54 @@ def check(case):
             elif kind in ("move", "move_to", "rotate") and e.kind in ("mol", "res"):
                 P = np.array([model.cells[c]["pos"] for c in e.cells])
                 com = P.mean(axis=0)
+                def rigid(label, fn, arg, target):
+                    """True when the operation took place.  Under the warnings-as-errors style a warning raised inside the
+                    operation aborts it (no verdict by itself) - but the body must then be where it was or where it was
+                    going as a whole, never part moved and part not."""
+                    try:
+                        lib(label, fn, arg)
+                        return True
+                    except Discard as d:
+                        if d.reason != "warning-as-error":
+                            raise
+                    cur = np.array(o.atoms_positions, float)
+                    tol = 1e-9 + 8 * np.finfo(float).eps * max(np.abs(P).max(), np.abs(target).max())
+                    if np.abs(cur - target).max() <= tol:
+                        return True
+                    if np.abs(cur - P).max() <= tol:
+                        return False
+                    raise PropertyViolation("rigid-one-body", "%s aborted by a warning left the body deformed: %d of %d atoms "
+                                            "moved" % (label, int((np.abs(cur - P).max(axis=1) > tol).sum()), len(P)))
+                done = True
                 if kind == "move":
                     v = rng.uniform(-3, 3, 3) * (10.0 ** rng.uniform(-4, -2) if flag else 1.0)      # also small steps
-                    lib("move", o.move, v.copy())
+                    if b % 7 == 0 and len(P) > 1:
+                        # ... and steps that take part of the body across a power of ten (another width in a .gro column)
+                        lim = [1e4, -1e3, 1e3, -1e2, 1e2][b // 7 % 5]
+                        ax = b // 35 % 3
+                        v = np.zeros(3)
+                        v[ax] = lim - 0.5 * (P[:, ax].min() + P[:, ax].max())
                     newP = P + v
+                    done = rigid("move", o.move, v.copy(), newP)
                 elif kind == "move_to":
                     p = com + rng.uniform(-1, 1, 3) * 10.0 ** rng.uniform(-4, -2) if flag else rng.uniform(-3, 3, 3)
-                    lib("move_to", o.move_to, p.copy())
+                    if b % 7 == 0 and len(P) > 1:
+                        p = np.array(p, float)
+                        p[b // 35 % 3] = [1e4, -1e3, 1e3, -1e2, 1e2][b // 7 % 5]
                     newP = P + (p - com)
+                    done = rigid("move_to", o.move_to, p.copy(), newP)
                 else:
                     R = gen.random_rotation(rng)
-                    lib("rotate", o.rotate, R.copy())
                     newP = (P - com) @ R.T + com
+                    done = rigid("rotate", o.rotate, R.copy(), newP)
                     d0 = np.linalg.norm(P[:, None] - P[None], axis=-1)
                     d1 = np.linalg.norm(newP[:, None] - newP[None], axis=-1)
-                    assert np.abs(d0 - d1).max() < 1e-9
-                for c, p in zip(e.cells, newP):
-                    model.cells[c]["pos"] = p
-                    tainted.discard(c)
+                    if not np.abs(d0 - d1).max() < 1e-9:
+                        raise HarnessError("test-site search kept no bond length")
+                if done:
+                    for c, p in zip(e.cells, newP):
+                        model.cells[c]["pos"] = p
+                        tainted.discard(c)
             elif kind == "bad_rotate" and e.kind in ("mol", "res"):
                 # error-then-continue: a matrix that cannot rotate 3-vectors is refused and leaves the object untouched
                 bad = np.eye(2) if flag else np.eye(4)
